@@ -88,14 +88,9 @@ func init() {
 	registerMapAppendFunc(tI64, tMAP, appendMap_I64_Other)
 	registerMapAppendFunc(tI64, tSET, appendMap_I64_Other)
 	registerMapAppendFunc(tI64, tLIST, appendMap_I64_Other)
-	registerMapAppendFunc(tDOUBLE, tBOOL, appendMap_I64_BOOL)
-	registerMapAppendFunc(tDOUBLE, tBYTE, appendMap_I64_I08)
-	registerMapAppendFunc(tDOUBLE, tI16, appendMap_I64_I16)
-	registerMapAppendFunc(tDOUBLE, tI32, appendMap_I64_I32)
-	registerMapAppendFunc(tDOUBLE, tI64, appendMap_I64_I64)
-	registerMapAppendFunc(tDOUBLE, tDOUBLE, appendMap_I64_I64)
-	registerMapAppendFunc(tDOUBLE, tENUM, appendMap_I64_ENUM)
-	registerMapAppendFunc(tDOUBLE, tSTRING, appendMap_I64_STRING)
+	// NOTE: no typed fast paths for double keys with scalar/string values: ranging over a map[float64]V as if it
+	// were a map[uint64]V uses the wrong key hasher, and while the map is growing the iterator then skips or repeats
+	// entries ("map size changed during encoding"). They use appendMapAnyAny, which iterates with the real type.
 	registerMapAppendFunc(tDOUBLE, tSTRUCT, appendMap_I64_Other)
 	registerMapAppendFunc(tDOUBLE, tMAP, appendMap_I64_Other)
 	registerMapAppendFunc(tDOUBLE, tSET, appendMap_I64_Other)
